@@ -1,9 +1,10 @@
 #!/bin/bash
-# run_refactor.sh <K> <PID...>: apply a behaviour-preserving refactoring to /repo, run checks (expected: exit 0), undo
+# run_refactor.sh <name> <PID...>: apply a behaviour-preserving refactoring (seeded/refactors/<name>.diff) to the repo, run checks (expected: exit 0), undo
 K=$1; shift
-cd /verif
-BAK=$(mktemp -d /verif/work/vx_ev_XXXX); cp -r evidence $BAK/
-git -C /repo apply /verif/seeded/refactors/r$K.diff || { echo "apply failed $K"; exit 2; }
-for c in "$@"; do ./check $c > /tmp/ref_${K}_$c.out 2>&1; echo "refactor $K $c exit $? $(tail -1 /tmp/ref_${K}_$c.out | cut -c1-110)"; grep -m2 "^UNDECIDED\|^VIOLATION" /tmp/ref_${K}_$c.out; done
-git -C /repo checkout -- .
+cd "$(dirname "$0")/.."
+REPO=${VX_REPO:-/repo}
+BAK=$(mktemp -d work/vx_ev_XXXX); cp -r evidence $BAK/
+git -C $REPO apply $PWD/seeded/refactors/$K.diff || { echo "apply failed $K"; exit 2; }
+for c in "$@"; do ./check $c > /tmp/ref_${K}_$c.out 2>&1; echo "refactor $K $c exit $? $(tail -1 /tmp/ref_${K}_$c.out | cut -c1-110)"; grep -m3 "^UNDECIDED\|^VIOLATION\|^obligation failed" /tmp/ref_${K}_$c.out; done
+git -C $REPO checkout -- .
 rm -rf evidence; cp -r $BAK/evidence evidence; rm -rf $BAK
